@@ -478,7 +478,10 @@ pub(crate) fn add_int_combination<W, R, T>(
             let mut s = 0u128;
             rt.can_allocate(k)?;
             let mut ret = Vec::with_capacity(k);
+            let mut search = rt.limits.search_iter();
             while k > 0{
+                // the walk takes up to n steps
+                search.next().unwrap()?;
                 if i < s_cutoff{
                     ret.push(s as usize);
                     if k > 1{
@@ -533,7 +536,10 @@ pub(crate) fn add_int_combination_with_replacement<W, R, T>(
             let mut s = 0u128;
             rt.can_allocate(k)?;
             let mut ret = Vec::with_capacity(k);
+            let mut search = rt.limits.search_iter();
             while k > 0{
+                // the walk takes up to n + k steps
+                search.next().unwrap()?;
                 if i < s_cutoff{
                     ret.push(s as usize);
                     if k > 1{
